@@ -10,6 +10,7 @@ import (
 	"strings"
 	"sync"
 	"time"
+	"unsafe"
 
 	"github.com/golang/snappy"
 	clconfig "github.com/metrico/cloki-config"
@@ -77,6 +78,8 @@ type Output struct {
 	Err      error
 	Status   int      // HTTP status class the controller answers for Err (controller.ErrorHandler): 0, 4xx, 500
 	Problems []string // responses that carry data in the wrong field / of the wrong type
+	Mutated  []string // chunks whose arrays changed after they had been handed over
+	Shared   string   // two handed-over chunks whose columns share a backing array ("" = none)
 }
 
 // NeverSeen is an ICache that has never seen any key: every (day, fingerprint) is announced.
@@ -102,10 +105,14 @@ func (p *Proto) Parse(body []byte, o Opt, cache numbercache.ICache[uint64]) Outp
 		}
 		ctx = context.WithValue(ctx, "precision", prec)
 	}
+	if o.TTLDays != 0 { // controller.WithOverallContextMiddleware
+		ctx = context.WithValue(ctx, "TTL_DAYS", o.TTLDays)
+	}
 	if cache == nil {
 		cache = NeverSeen{}
 	}
 	var out Output
+	var kept []keptChunk
 	ch := p.Parser(ctx, bytes.NewReader(body), cache)
 	for r := range ch {
 		if r.Error != nil {
@@ -138,7 +145,22 @@ func (p *Proto) Parse(body []byte, o Opt, cache numbercache.ICache[uint64]) Outp
 			out.Problems = append(out.Problems, "empty response (neither samples nor series)")
 		}
 		out.Chunks = append(out.Chunks, c)
+		// "a chunk must not change after hand-over": the consumer (doPush) reads it in its own goroutine and re-submits
+		// the SAME object on retry.  Every chunk is kept exactly as handed over (no copy) next to a deep snapshot taken
+		// at receipt; all retained chunks are compared with their snapshots when a later chunk arrives and at the end.
+		for i := range kept {
+			if d := kept[i].changed(); d != "" {
+				out.Mutated = append(out.Mutated, fmt.Sprintf("chunk %d changed after hand-over (seen when chunk %d arrived): %s", i, len(kept), d))
+			}
+		}
+		kept = append(kept, keep(c))
 	}
+	for i := range kept {
+		if d := kept[i].changed(); d != "" {
+			out.Mutated = append(out.Mutated, fmt.Sprintf("chunk %d changed after hand-over (seen after the decoder finished): %s", i, d))
+		}
+	}
+	out.Shared = sharedBacking(out.Chunks)
 	return out
 }
 
@@ -319,15 +341,18 @@ func NewFPRef() *FPRef { return &FPRef{m: map[string]fpRes{}} }
 // RefOpt is the plainest rendering of each protocol (used for reference fingerprints).
 func RefOpt(p *Proto) Opt { return Opt{} }
 
-func (f *FPRef) FP(p *Proto, labels []Label) (uint64, error) {
-	key := p.Name + "|" + labelsSeqKey(labels)
+func (f *FPRef) FP(p *Proto, labels []Label) (uint64, error) { return f.FPWith(p, labels, 0) }
+
+// FPWith: the reference fingerprint under a given X-Ttl-Days context value (with it, __ttl_days__ stays a label).
+func (f *FPRef) FPWith(p *Proto, labels []Label, ttl uint16) (uint64, error) {
+	key := fmt.Sprintf("%s|%d|%s", p.Name, ttl, labelsSeqKey(labels))
 	f.mu.Lock()
 	r, ok := f.m[key]
 	f.mu.Unlock()
 	if ok {
 		return r.fp, r.err
 	}
-	fp, err := refFP(p, labels)
+	fp, err := refFP(p, labels, ttl)
 	f.mu.Lock()
 	f.m[key] = fpRes{fp, err}
 	f.mu.Unlock()
@@ -350,7 +375,7 @@ func refEntry(p *Proto) Entry {
 	return Entry{TsNs: ts, Value: 1, Type: TypeMetric}
 }
 
-func refFP(p *Proto, labels []Label) (uint64, error) {
+func refFP(p *Proto, labels []Label, ttl uint16) (uint64, error) {
 	e := refEntry(p)
 	if p == Influx {
 		for _, l := range labels {
@@ -359,11 +384,13 @@ func refFP(p *Proto, labels []Label) (uint64, error) {
 			}
 		}
 	}
-	body, err := p.Render([]Stream{{Labels: labels, Entries: []Entry{e}}}, RefOpt(p))
+	ro := RefOpt(p)
+	ro.TTLDays = ttl
+	body, err := p.Render([]Stream{{Labels: labels, Entries: []Entry{e}}}, ro)
 	if err != nil {
 		return 0, err
 	}
-	out := p.Parse(body, RefOpt(p), nil)
+	out := p.Parse(body, ro, nil)
 	if out.Err != nil {
 		return 0, fmt.Errorf("reference body rejected: %w", out.Err)
 	}
@@ -372,4 +399,134 @@ func refFP(p *Proto, labels []Label) (uint64, error) {
 		return 0, fmt.Errorf("reference body gave %d rows", len(rows))
 	}
 	return rows[0].FP, nil
+}
+
+type keptChunk struct {
+	c    Chunk
+	spl  *model.TimeSamplesData
+	ts   *model.TimeSeriesData
+}
+
+func keep(c Chunk) keptChunk {
+	k := keptChunk{c: c}
+	if s := c.Spl; s != nil {
+		k.spl = &model.TimeSamplesData{MFingerprint: append([]uint64(nil), s.MFingerprint...), MTimestampNS: append([]int64(nil), s.MTimestampNS...),
+			MMessage: append([]string(nil), s.MMessage...), MValue: append([]float64(nil), s.MValue...), MTTLDays: append([]uint16(nil), s.MTTLDays...),
+			MType: append([]uint8(nil), s.MType...), Size: s.Size}
+	}
+	if t := c.Ts; t != nil {
+		k.ts = &model.TimeSeriesData{MDate: append([]time.Time(nil), t.MDate...), MLabels: append([]string(nil), t.MLabels...),
+			MFingerprint: append([]uint64(nil), t.MFingerprint...), MTTLDays: append([]uint16(nil), t.MTTLDays...), MType: append([]uint8(nil), t.MType...),
+			Size: t.Size, MMeta: t.MMeta}
+	}
+	return k
+}
+
+func eqSlice[T comparable](a, b []T) int {
+	if len(a) != len(b) {
+		return -2
+	}
+	for i := range a {
+		if a[i] != b[i] {
+			return i
+		}
+	}
+	return -1
+}
+
+func (k *keptChunk) changed() string {
+	rep := func(col string, r int) string {
+		if r == -2 {
+			return col + ": length changed"
+		}
+		return fmt.Sprintf("%s[%d] differs from the value handed over", col, r)
+	}
+	if s, o := k.c.Spl, k.spl; s != nil {
+		if r := eqSlice(s.MFingerprint, o.MFingerprint); r != -1 {
+			return rep("samples.fingerprint", r)
+		}
+		if r := eqSlice(s.MTimestampNS, o.MTimestampNS); r != -1 {
+			return rep("samples.timestamp_ns", r)
+		}
+		if r := eqSlice(s.MMessage, o.MMessage); r != -1 {
+			return rep("samples.string", r)
+		}
+		for i := range s.MValue {
+			if i >= len(o.MValue) || f64bits(s.MValue[i]) != f64bits(o.MValue[i]) {
+				return rep("samples.value", i)
+			}
+		}
+		if len(s.MValue) != len(o.MValue) {
+			return rep("samples.value", -2)
+		}
+		if r := eqSlice(s.MTTLDays, o.MTTLDays); r != -1 {
+			return rep("samples.ttl_days", r)
+		}
+		if r := eqSlice(s.MType, o.MType); r != -1 {
+			return rep("samples.type", r)
+		}
+	}
+	if t, o := k.c.Ts, k.ts; t != nil {
+		if len(t.MDate) != len(o.MDate) {
+			return rep("series.date", -2)
+		}
+		for i := range t.MDate {
+			if !t.MDate[i].Equal(o.MDate[i]) {
+				return rep("series.date", i)
+			}
+		}
+		if r := eqSlice(t.MLabels, o.MLabels); r != -1 {
+			return rep("series.labels", r)
+		}
+		if r := eqSlice(t.MFingerprint, o.MFingerprint); r != -1 {
+			return rep("series.fingerprint", r)
+		}
+		if r := eqSlice(t.MTTLDays, o.MTTLDays); r != -1 {
+			return rep("series.ttl_days", r)
+		}
+		if r := eqSlice(t.MType, o.MType); r != -1 {
+			return rep("series.type", r)
+		}
+	}
+	return ""
+}
+
+// sharedBacking reports two handed-over chunks whose non-empty columns start at the same address.
+func sharedBacking(chunks []Chunk) string {
+	seen := map[unsafe.Pointer]string{}
+	note := func(p unsafe.Pointer, n int, who string) string {
+		if n == 0 || p == nil {
+			return ""
+		}
+		if o, ok := seen[p]; ok {
+			return o + " and " + who
+		}
+		seen[p] = who
+		return ""
+	}
+	for i, c := range chunks {
+		w := func(col string) string { return fmt.Sprintf("chunk %d %s", i, col) }
+		var hits []string
+		if s := c.Spl; s != nil {
+			hits = append(hits, note(unsafe.Pointer(unsafe.SliceData(s.MFingerprint)), len(s.MFingerprint), w("samples.fingerprint")),
+				note(unsafe.Pointer(unsafe.SliceData(s.MTimestampNS)), len(s.MTimestampNS), w("samples.timestamp_ns")),
+				note(unsafe.Pointer(unsafe.SliceData(s.MMessage)), len(s.MMessage), w("samples.string")),
+				note(unsafe.Pointer(unsafe.SliceData(s.MValue)), len(s.MValue), w("samples.value")),
+				note(unsafe.Pointer(unsafe.SliceData(s.MTTLDays)), len(s.MTTLDays), w("samples.ttl_days")),
+				note(unsafe.Pointer(unsafe.SliceData(s.MType)), len(s.MType), w("samples.type")))
+		}
+		if t := c.Ts; t != nil {
+			hits = append(hits, note(unsafe.Pointer(unsafe.SliceData(t.MDate)), len(t.MDate), w("series.date")),
+				note(unsafe.Pointer(unsafe.SliceData(t.MLabels)), len(t.MLabels), w("series.labels")),
+				note(unsafe.Pointer(unsafe.SliceData(t.MFingerprint)), len(t.MFingerprint), w("series.fingerprint")),
+				note(unsafe.Pointer(unsafe.SliceData(t.MTTLDays)), len(t.MTTLDays), w("series.ttl_days")),
+				note(unsafe.Pointer(unsafe.SliceData(t.MType)), len(t.MType), w("series.type")))
+		}
+		for _, h := range hits {
+			if h != "" {
+				return h + " share a backing array"
+			}
+		}
+	}
+	return ""
 }
